@@ -548,7 +548,7 @@ def run(tier, seed):
     sfail = []
     for own in (False, True):
         for (mxs, comb, nmsg) in ([(300, 1000, 30)] if quick else [(300, 1000, 30), (300, 0, 12), (2000, 5000, 60)]):
-            r = impl.call("logSecondary", MaxSize=mxs, Combined=comb, N=nmsg, OwnDir=own)
+            r = impl.call("logSecondary", MaxSize=mxs, Combined=comb, N=nmsg, OwnDir=own, Main=0 if own else nmsg // 2)
             fs = r.get("files")
             rep.case(("secondary", own, mxs, comb, nmsg))
             rep.count("secondary-logger-gc:" + ("own directory" if own else "main directory"))
@@ -560,6 +560,9 @@ def run(tier, seed):
             if o != "ok" or not fs:
                 sfail.append({"secondary logger": "own directory" if own else "main directory", "LogFileMaxSize": mxs, "bound": comb, "messages": nmsg,
                               "files_left": len(fs), "bytes_left": sum(f["Size"] for f in fs), "oracle": o})
+            if r.get("foreignInMain"):
+                sfail.append({"main logger shares its directory with the secondary logger": True, "messages of the secondary logger read back through the main logger": r["foreignInMain"],
+                              "oracle": "FAIL every logger reads back its own entries only"})
     rep.obligation("O-C16e: secondary loggers with GC enabled keep the newest file and otherwise stay below the bound", "O", not sfail, brief(sfail))
 
     # ---- O-C16d: rotation with the GC daemon running ------------------------------------------------
